@@ -329,8 +329,13 @@ func (s *Store) Instantiate(
 		return nil, err
 	}
 
+	// Attach the close notifier before the module becomes visible to other goroutines (e.g. a
+	// concurrent Runtime.Close), so that whoever closes it fires the notification exactly once.
+	m.CloseNotifier, _ = ctx.Value(expctxkeys.CloseNotifierKey{}).(experimental.CloseNotifier)
+
 	// Now that the instantiation is complete without error, add it.
 	if err = s.registerModule(m); err != nil {
+		m.CloseNotifier = nil // never became visible: nothing to notify
 		_ = m.Close(ctx)
 		return nil, err
 	}
